@@ -412,13 +412,15 @@ pub(crate) mod b {
     /// same cells, quoted texts and css
     #[test]
     fn bounded_legend_cut_and_line_endings() {
-        let drawings = ["", "+--+\n|ab|\n+--+\n", "x\n\n", " \"q\" -\n", "┌─┐\n│é│\n└─┘\n", "一二\n┘\n└──┘\n\n"];
-        let legends: [(&str, &[(&str, &str)]); 8] = [
+        // the last drawing mentions the header words in a note: the real legend further down still counts
+        let drawings = ["", "+--+\n|ab|\n+--+\n", "x\n\n", " \"q\" -\n", "┌─┐\n│é│\n└─┘\n", "一二\n┘\n└──┘\n\n", "see # Legend: below\n--\n"];
+        let legends: [(&str, &[(&str, &str)]); 9] = [
             ("# Legend:\na = {fill:red}", &[("a", "fill:red")]),
             ("# Legend:\na = {f}\nb1 = {s:1;\nt:2}", &[("a", "f"), ("b1", "s:1;\nt:2")]),
             ("# Legend:\n_x = {}\n", &[("_x", "")]),
-            ("# Legend:\na = {f}\n\nb = {g}", &[("a", "f")]),
-            ("# Legend:\n\na = {f}", &[]),
+            ("# Legend:\na = {f}\n\nb = {g}", &[("a", "f"), ("b", "g")]),
+            ("# Legend:\n\na = {f}", &[("a", "f")]),
+            ("# Legend:\na = {f}\nrest\nb = {g}", &[("a", "f")]),
             ("# Legend:", &[]),
             ("# Legend:\na = {f;\n\n g }\nb = {h}\nc = {i}", &[("a", "f;\n\n g "), ("b", "h"), ("c", "i")]),
             ("# Legend:\na = {é:一}\nb = {x}", &[("a", "é:一"), ("b", "x")]),
